@@ -4,6 +4,9 @@ import Driver.Graph
 import Driver.Analysis
 import Driver.Verilog
 import Driver.CLimb
+import Driver.Lower
+import Driver.Dco
+import Driver.Alias
 /-! Line-protocol driver: one JSON request per input line, one JSON reply per output line. -/
 open Lean
 namespace Pyrtl.Drv
@@ -28,6 +31,9 @@ def dispatch (j : Json) : Except String Json := do
   | "fsel" => cmdFsel j
   | "vemit" => cmdVemit j
   | "vsim" => cmdVsim j
+  | "lower" => cmdLower j
+  | "dco" => cmdDco j
+  | "alias" => cmdAlias j
   | _ => throw s!"unknown cmd {cmd}"
 
 partial def loop (hin hout : IO.FS.Stream) : IO Unit := do
